@@ -214,6 +214,7 @@ func (c *ctx) tattrs(thorough bool) {
 			tc.differ = postgres.DefaultDiff
 		}
 		tokDialect = p.dialect
+		tc.ctx.differ = tc.differ
 		tc.cases(thorough)
 		c.n = tc.n
 	}
@@ -446,5 +447,195 @@ func (c *txctx) cases(thorough bool) {
 		}
 		c.w.Count(fmt.Sprintf("tmulti:%d-dims", len(ds)))
 		c.one("attrN", "S", desc, from, to, mask, exp, judge, isErr)
+	}
+	c.checkFlags(thorough)
+}
+
+// tokTableXK: the flagged checks, then the table without them.
+func tokTableXK(dialect string, t *schema.Table) string {
+	var w []string
+	var rest []schema.Attr
+	n := 0
+	for _, a := range t.Attrs {
+		k, ok := a.(*schema.Check)
+		if !ok {
+			rest = append(rest, a)
+			continue
+		}
+		n++
+		flag := false
+		if dialect == "mysql" {
+			flag = true // enforced unless stated otherwise
+			var e mysql.Enforced
+			if hasAttr(k.Attrs, &e) {
+				flag = e.V
+			}
+		} else {
+			flag = hasAttr(k.Attrs, &postgres.NoInherit{})
+		}
+		w = append(w, hx(k.Name), hx(k.Expr), b01(flag))
+	}
+	cp := *t
+	cp.Attrs = rest
+	w = append([]string{strconv.Itoa(n)}, w...)
+	tokTableX(&cp, &w)
+	return strings.Join(w, " ")
+}
+
+// checkFlags: CHECK constraints with MySQL NOT ENFORCED / PostgreSQL NO INHERIT, through TableDiff.
+// Per check (two named, one unnamed) every combination of (current flag, desired flag, expression
+// edited or not); a named check that differs in flag or expression is one ModifyCheck, an unnamed
+// one is dropped and added; then random combinations over the three checks + add / drop of a
+// flagged check.
+func (c *txctx) checkFlags(thorough bool) {
+	p := c.p
+	pkn := map[string]string{"mysql": "PRIMARY", "postgres": "tk_pkey"}[p.dialect]
+	base := Table{Name: "tk", Cols: []Col{{Name: "id", Type: p.tInt}, {Name: "n", Type: p.tInt, Null: true}},
+		PK: &Idx{Name: pkn, Parts: []Part{{Col: "id"}}},
+		Checks: []Check{{Name: "c1", Expr: "(n > 0)"}, {Name: "c2", Expr: "(n < 100)"}, {Name: "", Expr: "(id > 0)"}}}
+	edited := []string{"(n > 1)", "(n < 99)", "(id > 1)"}
+	setFlag := func(k *Check, f bool) { k.NotEnforced, k.NoInherit = f, f }
+	run := func(class, desc string, f, t Table, exp []string, judge bool) {
+		id := c.id("tattrs-"+class, 0)
+		from := Schema{Name: "main", Tables: []Table{f.clone()}}
+		to := Schema{Name: "main", Tables: []Table{t.clone()}}
+		seqParts(&from)
+		seqParts(&to)
+		g1, g2 := build(p.dialect, from), build(p.dialect, to)
+		t1, _ := g1.Table("tk")
+		t2, _ := g2.Table("tk")
+		cs, err, pan := c.tableDiff(t1, t2, 0)
+		obs := showSubs(cs)
+		if err != nil {
+			obs = "err"
+		}
+		if pan != "" {
+			obs = "panic"
+		}
+		line := "K " + c.dialect + " 0 ~ ~ " + tokTableXK(p.dialect, t1) + " " + tokTableXK(p.dialect, t2)
+		c.w.Case(id, line, []string{obs})
+		c.w.Count("class:" + class)
+		c.w.Count("dialect:" + c.dialect)
+		if obs != "{}" {
+			c.w.NonTrivial(class + "|" + c.dialect + "|K|" + desc + "|" + obs)
+		}
+		head := fmt.Sprintf("[%s] tattrs K %s %s", c.dialect, class, desc)
+		if pan != "" {
+			c.w.Violation(id, "tattrs-panic", head+": differ panicked: "+pan)
+			return
+		}
+		if !judge {
+			return
+		}
+		if err != nil {
+			c.w.Violation(id, "tattrs-error", head+": differ returned an error: "+err.Error())
+			return
+		}
+		var wrapped []schema.Change
+		if len(cs) > 0 {
+			wrapped = []schema.Change{&schema.ModifyTable{T: t2, Changes: cs}}
+		}
+		got := flat(wrapped)
+		want := append([]string(nil), exp...)
+		sort.Strings(want)
+		if strings.Join(got, "\x00") == strings.Join(want, "\x00") {
+			return
+		}
+		missing, spurious := msetDiff(want, got), msetDiff(got, want)
+		cls := "tattrs-mismatch"
+		switch {
+		case len(want) == 0:
+			cls = "tattrs-nonempty-" + class
+		case len(missing) > 0 && len(spurious) == 0:
+			cls = "tattrs-missing-change"
+		case len(missing) == 0 && len(spurious) > 0:
+			cls = "tattrs-spurious-change"
+		}
+		c.w.Violation(id, cls, fmt.Sprintf("%s: required %v, differ returned %v (missing %v, not required %v)", head, want, got, missing, spurious))
+	}
+	what := map[string]string{"mysql": "NOT ENFORCED", "postgres": "NO INHERIT"}[p.dialect]
+	req := func(k Check, ff, tf bool, ne string) []string {
+		if ff == tf && ne == k.Expr {
+			return nil
+		}
+		if k.Name != "" {
+			return []string{fmt.Sprintf("tk/~CK(%s:%s>%s:%s)", k.Name, hx(k.Expr), k.Name, hx(ne))}
+		}
+		return []string{fmt.Sprintf("tk/-CK(:%s)", hx(k.Expr)), fmt.Sprintf("tk/+CK(:%s)", hx(ne))}
+	}
+	for ki, k := range base.Checks {
+		for _, ff := range []bool{false, true} {
+			for _, tf := range []bool{false, true} {
+				for _, ed := range []bool{false, true} {
+					f, t := base.clone(), base.clone()
+					setFlag(&f.Checks[ki], ff)
+					setFlag(&t.Checks[ki], tf)
+					ne := k.Expr
+					if ed {
+						ne = edited[ki]
+						t.Checks[ki].Expr = ne
+					}
+					exp := req(k, ff, tf, ne)
+					class := "check1"
+					if len(exp) == 0 {
+						class = "nonedit"
+					}
+					c.w.Count("tattr:check-flag")
+					run(class, fmt.Sprintf("check %q %s: %v -> %v, expression edited: %v", k.Name, what, ff, tf, ed), f, t, exp, true)
+				}
+			}
+		}
+	}
+	n := 150
+	if thorough {
+		n = 3000
+	}
+	for i := 0; i < n; i++ {
+		f, t := base.clone(), base.clone()
+		var exp, ds []string
+		for ki, k := range base.Checks {
+			ff, tf, ed := c.r.Chance(1, 2), c.r.Chance(1, 2), c.r.Chance(1, 3)
+			setFlag(&f.Checks[ki], ff)
+			setFlag(&t.Checks[ki], tf)
+			ne := k.Expr
+			if ed {
+				ne = edited[ki]
+				t.Checks[ki].Expr = ne
+			}
+			exp = append(exp, req(k, ff, tf, ne)...)
+			ds = append(ds, fmt.Sprintf("%q %v->%v edited=%v", k.Name, ff, tf, ed))
+		}
+		if c.r.Chance(1, 3) {
+			nk := Check{Name: "c9", Expr: "(n <> 7)"}
+			setFlag(&nk, c.r.Chance(1, 2))
+			t.Checks = append(t.Checks, nk)
+			exp = append(exp, fmt.Sprintf("tk/+CK(c9:%s)", hx(nk.Expr)))
+			ds = append(ds, "add c9")
+		}
+		if c.r.Chance(1, 3) {
+			nk := Check{Name: "c8", Expr: "(n <> 8)"}
+			setFlag(&nk, c.r.Chance(1, 2))
+			f.Checks = append(f.Checks, nk)
+			exp = append(exp, fmt.Sprintf("tk/-CK(c8:%s)", hx(nk.Expr)))
+			ds = append(ds, "drop c8")
+		}
+		if c.r.Chance(1, 2) {
+			for a := len(t.Checks) - 1; a > 0; a-- {
+				b := c.r.Intn(a + 1)
+				t.Checks[a], t.Checks[b] = t.Checks[b], t.Checks[a]
+			}
+		}
+		run("checkN", what+": "+strings.Join(ds, ", "), f, t, exp, true)
+	}
+	if p.dialect == "mysql" {
+		// the JSON check MariaDB generates for a JSON column (named as the column): its DropCheck is
+		// suppressed while the column exists (tie only)
+		f, t := base.clone(), base.clone()
+		f.Cols = append(f.Cols, Col{Name: "j", Type: p.tJSON, Null: true})
+		t.Cols = append(t.Cols, Col{Name: "j", Type: p.tJSON, Null: true})
+		f.Checks = append(f.Checks, Check{Name: "j", Expr: "json_valid(`j`)"})
+		run("json-check", "generated json_valid check of column j not in the desired table", f, t, nil, false)
+		t2 := base.clone()
+		run("json-check", "generated json_valid check, column j dropped too", f, t2, nil, false)
 	}
 }
